@@ -93,7 +93,7 @@ TRANSPARENT = [
 _TRANSPARENT_RE = re.compile("|".join("(?:%s)" % p for p in TRANSPARENT))
 
 # value is one of the two arguments
-_UNION_ARGS_RE = re.compile(r"^(std::option::Option::unwrap_or|std::result::Result::unwrap_or)$")
+_UNION_ARGS_RE = re.compile(r"^(std::option::Option::unwrap_or|std::result::Result::unwrap_or|std::option::Option::unwrap_or_else|std::result::Result::unwrap_or_else)$")
 
 # api.addr_validate(x) / addr_canonicalize(x) / addr_humanize(x): value is arg 1.
 TRANSPARENT_ARG1 = re.compile(
